@@ -1,1 +1,6 @@
-pub fn hello() {}
+pub mod checks;
+pub mod engine;
+pub mod expr;
+pub mod exprrun;
+pub mod shrink;
+pub mod tape;
